@@ -104,6 +104,32 @@ class ImgStub(_DaArrayBase):
         out.numpy_like = self.numpy_like
         return out
 
+    @property
+    def blocks(self):
+        """dask's block view: blocks[i0:i1, j0:j1, k0:k1] is the sub-array made of those chunks (concrete chunk layout)"""
+        outer = self
+
+        class _Blocks:
+            def __getitem__(self_, key):
+                if not isinstance(key, tuple):
+                    key = (key,)
+                key = key + (slice(None),) * (outer.ndim - len(key))
+                vox, chunks = [], []
+                for sl, ch in zip(key, outer.chunks):
+                    if isinstance(sl, int):
+                        sl = slice(sl, sl + 1)
+                    i0, i1, _ = sl.indices(len(ch))
+                    edges = np.concatenate([[0], np.cumsum(ch)])
+                    vox.append(slice(int(edges[i0]), int(edges[max(i1, i0)])))
+                    chunks.append(tuple(ch[i0:max(i1, i0)]))
+                sub = outer[tuple(vox)]
+                sub.chunks = tuple(chunks)
+                sub.numblocks = tuple(len(c) for c in chunks)
+                sub.npartitions = int(np.prod(sub.numblocks)) if all(sub.numblocks) else 0
+                return sub
+
+        return _Blocks()
+
     # -- the reshape/sum pattern of acryo._utils.bin_image ------------------------------------
     def reshape(self, *shape):
         if len(shape) == 1 and isinstance(shape[0], (tuple, list)):
